@@ -148,6 +148,17 @@ LIFE_CODE = {"ok": 0, "invalid": 1, "lifecycle": 2, "constraint": 2}            
 CONS_CODE = {"ok": 0, "constraint": 1, "lifecycle": 2, "invalid": 2, "value": 3, "type": 4}   # anything else 5
 
 
+_ABSENT = object()
+
+
+def _state_list_of(args, kwargs):
+    """the list of state names among the arguments of the constraint maker (whatever the parameter is called)"""
+    for a in list(args) + list(kwargs.values()):
+        if isinstance(a, (list, tuple)) and all(isinstance(x, str) for x in a):
+            return list(a)
+    return None
+
+
 class Recorder:
     """Records the life of LifeCycleManagers created while active: phases, moves, constraints, captures and calls.
     Methods are interned as numbers: m = index of (id(owner), attribute name); guids as numbers likewise."""
@@ -162,6 +173,7 @@ class Recorder:
         self.constrained = {}     # m -> (svc, allow, restrict, permitted names)   accepted constraints, first wins
         self.attempts = []        # every add_constraint attempt: dict
         self.ncapt = 0
+        self.phase_states = []    # states of every accepted add_phase, in order
         self.state_names = None
         self.maker_wrapped = False
         self.mgr = None
@@ -204,7 +216,8 @@ class Recorder:
         from vivarium.framework import lifecycle as L
         self.L = L
         cls = L.LifeCycleManager
-        self.saved = [(cls, n, cls.__dict__[n]) for n in ("add_phase", "set_state", "add_constraint")]
+        # PUBLIC methods of LifeCycleManager are wrapped (found by attribute look-up, wherever the class hierarchy defines them)
+        self.saved = [(cls, n, cls.__dict__.get(n, _ABSENT)) for n in ("add_phase", "set_state", "add_constraint")]
         rec = self
         o_phase, o_state, o_cons = cls.add_phase, cls.set_state, cls.add_constraint
         self.pending = None
@@ -218,6 +231,8 @@ class Recorder:
                 raise
             finally:
                 c = err_class(err)
+                if err is None:
+                    rec.phase_states.extend(states)
                 rec.events.append((f"EAddPhase {cz(pid(phase_name))} {czlist(sid(s) for s in states)} {cbool(loop)}",
                                    LIFE_CODE.get(c, 5), [], {"kind": "phase"}))
 
@@ -272,9 +287,9 @@ class Recorder:
             mk = L.ConstraintMaker
             o_call = mk.__dict__["__call__"]
 
-            def maker_call(maker, method, permitted_states):
-                rec.pending = list(permitted_states)
-                return o_call(maker, method, permitted_states)
+            def maker_call(maker, *args, **kwargs):
+                rec.pending = _state_list_of(args, kwargs)
+                return o_call(maker, *args, **kwargs)
 
             mk.__call__ = maker_call
             self.saved.append((mk, "__call__", o_call))
@@ -285,19 +300,22 @@ class Recorder:
 
     def __exit__(self, *a):
         for cls, n, f in self.saved:
-            setattr(cls, n, f)
+            if f is _ABSENT:
+                try:
+                    delattr(cls, n)
+                except AttributeError:
+                    pass
+            else:
+                setattr(cls, n, f)
 
     def all_states(self, mgr):
-        try:
-            return sorted(mgr.lifecycle._state_names, key=sid)
-        except Exception:
-            out = []
-            for ph in ("initialization", "setup", "main_loop", "simulation_end"):
-                try:
-                    out += list(mgr.get_state_names(ph))
-                except Exception:
-                    pass
-            return out
+        """The state set of the life cycle, from what the recorder saw through the public add_phase (the life cycle starts
+        with the single state `initialization`); no private attribute is read."""
+        out = ["initialization"]
+        for st in self.phase_states:
+            if st not in out:
+                out.append(st)
+        return sorted(out, key=sid)
 
     # -- probe-side events --
     def capture(self, obj, name):
@@ -380,6 +398,11 @@ VARIANT_SVC = {"view.update": 15, "view.get": 8, "pipe": 9, "get_draw": 10, "fil
 # (view.update through a full view can never add a column, so during the initial creation - where every update must bring
 # a new column - it fails by itself AFTER the guard let it through)
 STRICT_EXEMPT = {("view.update@full", "population_creation")}
+
+
+EMIT_CHANNELS = ["post_setup", "time_step__prepare", "time_step", "time_step__cleanup", "collect_metrics",
+                 "simulation_end", "report"]
+OUTER_STATES = ["post_setup", "population_creation", "collect_metrics", "simulation_end", "report"]
 
 
 def svc_of_label(label):
@@ -722,6 +745,19 @@ def make_classes():
                     self.rec.called("attr", m, code, {"label": label, "state": state, "probe": self.tag})
                 self.log.append((state, v, label, code, repr(err)[:160] if err is not None else None, m, note))
 
+        def outer_emit(self):
+            """called by the harness BETWEEN context calls (outside the engine): every emitter obtained in setup is called
+            in the current outer state; only the emitter of the state's own event may pass (it re-runs the listeners)."""
+            state = self.state()
+            v = self.visits.get(("outer", state), 0)
+            self.visits[("outer", state)] = v + 1
+            for ch, em in sorted(self.emitters.items()):
+                idx = None if state in ("setup", "post_setup") else pd.Index([0, 1, 2])
+                code, err = call_code(lambda: em(idx))
+                m = self.rec.method_id(em.__self__, em.__name__) if hasattr(em, "__self__") else self.rec.function_id(em)
+                self.rec.called("attr", m, code, {"label": f"emit@{ch}", "state": state, "probe": self.tag})
+                self.log.append((state, v, f"emit@{ch}", code, repr(err)[:160] if err is not None else None, m, None))
+
         def on_post_setup(self, event):
             self.hook("post_setup", None)
 
@@ -764,9 +800,9 @@ class MakerTap:
             orig = mk.__dict__["__call__"]
             tap = self
 
-            def maker_call(maker, method, permitted_states):
-                tap.seen = list(permitted_states)
-                return orig(maker, method, permitted_states)
+            def maker_call(maker, *args, **kwargs):
+                tap.seen = _state_list_of(args, kwargs)
+                return orig(maker, *args, **kwargs)
 
             mk.__call__ = maker_call
             self.saved = (mk, orig)
@@ -814,7 +850,7 @@ def config(days):
                      "step_size": 1}}
 
 
-def run_program(n_probes, layout, plan, interactive=False, days=2, use_subviews=True):
+def run_program(n_probes, layout, plan, interactive=False, days=2, use_subviews=True, outer_emits=False):
     """Build and run a real context to the end under a Recorder.  layout: list of 'p' / 'f' (probe / filler)."""
     from vivarium.framework.engine import SimulationContext
     from vivarium.interface.interactive import InteractiveContext
@@ -841,15 +877,24 @@ def run_program(n_probes, layout, plan, interactive=False, days=2, use_subviews=
             p.sim = sim
         err = None
         try:
+            def outer():
+                if outer_emits and probes:
+                    probes[0].outer_emit()
             if interactive:
                 sim.setup()
+                outer()
                 sim.run(with_logging=False)
             else:
                 sim.setup()
+                outer()
                 sim.initialize_simulants()
+                outer()
                 sim.run()
+            outer()
             sim.finalize()
+            outer()
             sim.report(print_results=False)
+            outer()
         except Exception as e:       # the enclosing legal run must not fail
             err = e
     return rec, probes, err
@@ -863,7 +908,8 @@ _MATRIX = {}
 
 def matrix():
     if not _MATRIX:
-        rec, probes, err = run_program(3, ["p", "f", "p", "f", "f", "p"], lambda tag, state, visit, label: True, days=2)
+        rec, probes, err = run_program(3, ["p", "f", "p", "f", "f", "p"], lambda tag, state, visit, label: True, days=2,
+                                      outer_emits=True)
         _MATRIX.update(rec=rec, probes=probes, err=err)
     return _MATRIX
 
@@ -927,7 +973,7 @@ def tables(run):
     lines = ["(* GENERATED on every run by harness/props/c07.py from the live code - do not edit *)",
              "From Viv Require Import Common Lifecycle LifecycleProofs Constraints ConstraintsProofs.",
              "Local Open Scope Z_scope.", "",
-             "(* LifeCycle._state_names of a real SimulationContext *)",
+             "(* the states of the life cycle of a real SimulationContext (as declared through add_phase) *)",
              "Definition engine_states : list sid := " + czlist(sid(s) for s in states) + ".",
              "(* every accepted add_constraint of the matrix context: (method key, named service number or 0, permitted list",
              "   as handed to the constraint maker) *)",
@@ -1037,7 +1083,10 @@ def run_handle(case):
 
 # ---- stream `cells`: service handle x state x age ------------------------------------------------------------------
 def all_cells():
-    return [{"call": c, "state": s, "age": a} for c in call_labels() for s in RUN_STATES for a in range(3)]
+    cells = [{"call": c, "state": s, "age": a} for c in call_labels() for s in RUN_STATES for a in range(3)]
+    # the emitters (channel.emit), called from OUTSIDE the engine in every outer state
+    cells += [{"call": f"emit@{ch}", "state": s, "age": 0} for ch in EMIT_CHANNELS for s in OUTER_STATES]
+    return cells
 
 
 def oracle_call(label, state, code, note=None):
@@ -1100,7 +1149,7 @@ def gen_real(rng: random.Random):
     rng.shuffle(layout)
     return {"seed": rng.getrandbits(32), "layout": layout, "interactive": rng.random() < 0.3,
             "days": rng.choice([1, 1, 2, 3]), "density": rng.choice([0.2, 0.5, 0.8, 1.0]),
-            "subviews": rng.random() < 0.3}
+            "subviews": rng.random() < 0.3, "outer_emits": rng.random() < 0.4}
 
 
 def run_real(case):
@@ -1114,7 +1163,8 @@ def run_real(case):
             decided[k] = prng.random() < dens
         return decided[k]
     n = case["layout"].count("p")
-    rec, probes, err = run_program(n, case["layout"], plan, case["interactive"], case["days"], case["subviews"])
+    rec, probes, err = run_program(n, case["layout"], plan, case["interactive"], case["days"], case["subviews"],
+                                   outer_emits=bool(case.get("outer_emits")))
     ok, msg = True, ""
     fclasses = set()
     ncalls = 0
@@ -1332,6 +1382,22 @@ def _run_hist_events(case, mgr, objs, tap, mid, fm, registry):
                 want = 1
             else:
                 want = 0
+            # an attempt with SEVERAL independent defects may be refused for any of them (which check comes first is not
+            # specified): any of their error classes is accepted and the model's is recorded
+            defects = set()
+            if both_or_none:
+                defects.add(3)
+            if unknown:
+                defects.add(2)
+            if key is None:
+                defects.add(4)
+            elif meth == "__dunder__":
+                defects.add(3)
+            elif f"{objs[o].name}.{meth}" in guid_done:
+                defects.add(1)
+            if len(defects) > 1 and code in defects:
+                tags.add("several_defects")
+                code = want
             if want != code:
                 ok, msg = False, f"add_constraint({meth}, allow={aln}, restrict={ren}) -> code {code}, expected {want}"
             if code == 0:
@@ -1462,6 +1528,8 @@ def run_install(case):
         want_code, want = 0, set(al)
     else:
         want_code, want = 0, set(allst) - set(re_)
+    if ((al and re_) or not (al or re_)) and unknown and code in (2, 3):
+        code = want_code          # two independent defects: either error class is right (order of the checks unspecified)
     if code != want_code:
         ok, msg = False, f"add_constraint(allow={al}, restrict={re_}) -> code {code}, expected {want_code}"
     elif set(passed) != want:
@@ -1487,6 +1555,50 @@ def install_corpus():
             {"n": 3, "split": 1, "allow": [], "restrict": [0, 1, 2, 3], "tuple": False}]
 
 
+# ---- shrinking (minimal replays) --------------------------------------------------------------------------------
+def shrink_real(case):
+    import copy
+    lay = case["layout"]
+    for i, x in enumerate(lay):
+        if x == "f" or lay.count("p") > 1:
+            c = copy.deepcopy(case); del c["layout"][i]; yield c
+    if case["days"] > 1:
+        c = dict(case); c["days"] = case["days"] - 1; yield c
+    for k in ("subviews", "outer_emits", "interactive"):
+        if case.get(k):
+            c = dict(case); c[k] = False; yield c
+    for d in (0.2, 0.5, 0.8):
+        if d < case["density"]:
+            c = dict(case); c["density"] = d; yield c
+
+
+def shrink_hist(case):
+    import copy
+    ev = case["events"]
+    n = len(ev)
+    if n > 3:
+        c = copy.deepcopy(case); c["events"] = ev[:n // 2]; yield c
+        c = copy.deepcopy(case); c["events"] = ev[n // 2:]; yield c
+    for i in range(n):
+        c = copy.deepcopy(case); del c["events"][i]; yield c
+    for i, e in enumerate(ev):
+        if e[0] == "constrain":
+            for j in (3, 4):
+                for k in range(len(e[j])):
+                    c = copy.deepcopy(case); del c["events"][i][j][k]; yield c
+
+
+def shrink_install(case):
+    import copy
+    for key in ("allow", "restrict"):
+        for i in range(len(case[key])):
+            c = copy.deepcopy(case); del c[key][i]; yield c
+    if case["n"] > 1 and max([0] + case["allow"] + [x for x in case["restrict"] if x < 50]) < case["n"]:
+        c = copy.deepcopy(case); c["n"] -= 1; c["split"] = min(c["split"], c["n"]); yield c
+    if case["tuple"]:
+        c = dict(case); c["tuple"] = False; yield c
+
+
 def streams(tier):
     tab = "From Viv Require Import Common Lifecycle Constraints.\nFrom VivGen Require Import ConstraintTable_C07."
     return [
@@ -1499,9 +1611,10 @@ def streams(tier):
                run=run_cell, exhaustive=all_cells, finding_of=finding_cells,
                doc="service handle x state x handle age on a real context, every visit"),
         Stream(name="real", imports="From Viv Require Import Common Lifecycle Constraints.", check="check_hist_real",
-               gen=gen_real, run=run_real, n_quick=14, n_thorough=100, finding_of=finding_real),
+               gen=gen_real, run=run_real, n_quick=14, n_thorough=100, finding_of=finding_real, shrink=shrink_real),
         Stream(name="hist", imports="From Viv Require Import Common Lifecycle Constraints.", check="check_hist",
-               gen=gen_hist, run=run_hist, n_quick=400, n_thorough=8000),
+               gen=gen_hist, run=run_hist, n_quick=400, n_thorough=8000, shrink=shrink_hist),
         Stream(name="install", imports="From Viv Require Import Common Lifecycle Constraints.", check="check_install",
-               gen=gen_install, run=run_install, n_quick=400, n_thorough=6000, corpus=install_corpus),
+               gen=gen_install, run=run_install, n_quick=400, n_thorough=6000, corpus=install_corpus,
+               shrink=shrink_install),
     ]
